@@ -356,3 +356,50 @@ func getterOf(v ssa.Value) (getter, bool) {
 	}
 	return getter{c.Call.Args[0], f.Name()}, true
 }
+
+// ReturnValues resolves the operands of a return instruction. In functions with
+// deferred calls go/ssa spills the results into cells (`*r0 = v; rundefers; return *r0`);
+// the value stored last into the cell in the returning block is reported instead of
+// the load.
+func ReturnValues(ret *ssa.Return) []ssa.Value {
+	out := make([]ssa.Value, len(ret.Results))
+	for i, r := range ret.Results {
+		out[i] = r
+		u, ok := r.(*ssa.UnOp)
+		if !ok || u.Op != token.MUL {
+			continue
+		}
+		cell, ok := u.X.(*ssa.Alloc)
+		if !ok {
+			continue
+		}
+		// last store to the cell in this block before the load
+		b := ret.Block()
+		var last ssa.Value
+		for _, in := range b.Instrs {
+			if in == ssa.Instruction(u) {
+				break
+			}
+			if st, ok := in.(*ssa.Store); ok && st.Addr == ssa.Value(cell) {
+				last = st.Val
+			}
+		}
+		if last != nil {
+			out[i] = last
+			continue
+		}
+		// single predecessor chain
+		for p := b; len(p.Preds) == 1 && last == nil; {
+			p = p.Preds[0]
+			for _, in := range p.Instrs {
+				if st, ok := in.(*ssa.Store); ok && st.Addr == ssa.Value(cell) {
+					last = st.Val
+				}
+			}
+		}
+		if last != nil {
+			out[i] = last
+		}
+	}
+	return out
+}
